@@ -21,10 +21,43 @@ import (
 	"verifharness/internal/hooks"
 )
 
-type fakeCC struct{ p *pool.Pool }
+// fakeCC is the layer's view of its connection. In lock-step mode (two goroutines handling the two copies of a
+// duplicated message at the same time) every AcquireMessage call of one goroutine waits - briefly - for the same
+// call of the other, which walks both through the layer's critical sections side by side.
+type fakeCC struct {
+	p    *pool.Pool
+	mu   sync.Mutex
+	step map[int64]int // lock-step: AcquireMessage calls made by each participating goroutine
+}
 
-func (f *fakeCC) AcquireMessage(ctx context.Context) *pool.Message { return f.p.AcquireMessage(ctx) }
-func (f *fakeCC) ReleaseMessage(m *pool.Message)                   { f.p.ReleaseMessage(m) }
+func (f *fakeCC) AcquireMessage(ctx context.Context) *pool.Message {
+	f.mu.Lock()
+	if f.step != nil {
+		g := hooks.GID()
+		if _, in := f.step[g]; in {
+			f.step[g]++
+			mine := f.step[g]
+			f.mu.Unlock()
+			deadline := time.Now().Add(2 * time.Millisecond)
+			for time.Now().Before(deadline) {
+				f.mu.Lock()
+				ok := f.step != nil
+				for _, n := range f.step {
+					ok = ok && n >= mine
+				}
+				f.mu.Unlock()
+				if ok {
+					break
+				}
+				time.Sleep(20 * time.Microsecond)
+			}
+			return f.p.AcquireMessage(ctx)
+		}
+	}
+	f.mu.Unlock()
+	return f.p.AcquireMessage(ctx)
+}
+func (f *fakeCC) ReleaseMessage(m *pool.Message) { f.p.ReleaseMessage(m) }
 
 // Body returns n bytes in which every aligned 4-byte word is its own index (so any payload of >= 4 aligned
 // bytes locates itself in the body); salt distinguishes request and response bodies.
@@ -235,33 +268,35 @@ type Delivery struct {
 }
 
 type LayerTrace struct {
-	Op      string     `json:"op"`
-	P       Params     `json:"p"`
-	Acts    []Act      `json:"acts"`
-	Applied []bool     `json:"applied"`
-	Msgs    []MsgRec   `json:"msgs"` // everything the two sides sent, in order
-	App     []Delivery `json:"app"`  // deliveries to the server application (request bodies)
-	Got     []Delivery `json:"got"`  // what Do returned to the client application (response body)
-	Ret     string     `json:"ret"`  // none | ok | err
-	RetCode int        `json:"retcode"`
-	Faulty  bool       `json:"faulty"` // some dup / drop / replay was applied
-	Quiet   bool       `json:"quiet"`  // both queues empty at the end
-	Panics  int        `json:"panics"`
-	RcvSrv  int        `json:"rcvSrv"` // reassembly / send cache sizes at the end (before expiry)
-	SndSrv  int        `json:"sndSrv"`
-	RcvCli  int        `json:"rcvCli"`
-	SndCli  int        `json:"sndCli"`
-	RcvSrvX int        `json:"rcvSrvX"` // ... and after the expiry sweep
-	SndSrvX int        `json:"sndSrvX"`
-	RcvCliX int        `json:"rcvCliX"`
-	SndCliX int        `json:"sndCliX"`
+	Op         string     `json:"op"`
+	Concurrent bool       `json:"concurrent"`
+	P          Params     `json:"p"`
+	Acts       []Act      `json:"acts"`
+	Applied    []bool     `json:"applied"`
+	Msgs       []MsgRec   `json:"msgs"` // everything the two sides sent, in order
+	App        []Delivery `json:"app"`  // deliveries to the server application (request bodies)
+	Got        []Delivery `json:"got"`  // what Do returned to the client application (response body)
+	Ret        string     `json:"ret"`  // none | ok | err
+	RetCode    int        `json:"retcode"`
+	Faulty     bool       `json:"faulty"` // some dup / drop / replay was applied
+	Quiet      bool       `json:"quiet"`  // both queues empty at the end
+	Panics     int        `json:"panics"`
+	RcvSrv     int        `json:"rcvSrv"` // reassembly / send cache sizes at the end (before expiry)
+	SndSrv     int        `json:"sndSrv"`
+	RcvCli     int        `json:"rcvCli"`
+	SndCli     int        `json:"sndCli"`
+	RcvSrvX    int        `json:"rcvSrvX"` // ... and after the expiry sweep
+	SndSrvX    int        `json:"sndSrvX"`
+	RcvCliX    int        `json:"rcvCliX"`
+	SndCliX    int        `json:"sndCliX"`
 }
 
 // RunLayer executes one schedule on two fresh BlockWise instances.
-func RunLayer(p Params, acts []Act) LayerTrace {
-	tr := LayerTrace{Op: "layer", P: p, Acts: acts, Applied: make([]bool, len(acts)), Msgs: []MsgRec{}, App: []Delivery{}, Got: []Delivery{}, Ret: "none"}
+// concurrent: a "dup" action hands the two copies to the layer from two goroutines at the same time
+func RunLayer(p Params, acts []Act, concurrent bool) LayerTrace {
+	tr := LayerTrace{Op: "layer", Concurrent: concurrent, P: p, Acts: acts, Applied: make([]bool, len(acts)), Msgs: []MsgRec{}, App: []Delivery{}, Got: []Delivery{}, Ret: "none"}
 	plc, pls := pool.New(64, 2048), pool.New(64, 2048)
-	ccC, ccS := &fakeCC{plc}, &fakeCC{pls}
+	ccC, ccS := &fakeCC{p: plc}, &fakeCC{p: pls}
 	var errs int
 	var mu sync.Mutex
 	onErr := func(error) { mu.Lock(); errs++; mu.Unlock() }
@@ -411,13 +446,56 @@ func RunLayer(p Params, acts []Act) LayerTrace {
 		}
 		return w, true
 	}
-	recv := func(w wireMsg) {
+	stuck := false
+	recv1 := func(w wireMsg) {
 		if w.rec.Dir == "c2s" {
 			handle(srv, ccS, w, p.SS, p.SMMS, "s2c", serverApp)
 		} else {
 			handle(cli, ccC, w, p.CS, p.CMMS, "c2s", clientNext)
 		}
 	}
+	// the layer must come back from every message (watchdog: "never by hanging")
+	recvN := func(w wireMsg, copies int) {
+		side := ccS
+		if w.rec.Dir != "c2s" {
+			side = ccC
+		}
+		var wg sync.WaitGroup
+		if copies > 1 {
+			side.mu.Lock()
+			side.step = map[int64]int{}
+			side.mu.Unlock()
+		}
+		ready := make(chan struct{})
+		for k := 0; k < copies; k++ {
+			wg.Add(1)
+			go func() {
+				defer wg.Done()
+				if copies > 1 {
+					side.mu.Lock()
+					side.step[hooks.GID()] = 0
+					side.mu.Unlock()
+					<-ready
+				}
+				recv1(w)
+			}()
+		}
+		if copies > 1 {
+			hooks.WaitFor(time.Second, func() bool { side.mu.Lock(); defer side.mu.Unlock(); return len(side.step) == copies })
+			close(ready)
+		}
+		fin := make(chan struct{})
+		go func() { wg.Wait(); close(fin) }()
+		select {
+		case <-fin:
+		case <-time.After(2 * time.Second):
+			stuck = true
+		}
+		side.mu.Lock()
+		side.step = nil
+		side.mu.Unlock()
+	}
+	recv := func(w wireMsg) { recvN(w, 1) }
 	for i, a := range acts {
 		switch a.A {
 		case "start":
@@ -431,7 +509,12 @@ func RunLayer(p Params, acts []Act) LayerTrace {
 				tr.Applied[i] = true
 			}
 		case "dup":
-			if w, ok := pop(a.D, true); ok {
+			if concurrent {
+				if w, ok := pop(a.D, false); ok { // the message and its duplicate, at the same time
+					recvN(w, 2)
+					tr.Applied[i], tr.Faulty = true, true
+				}
+			} else if w, ok := pop(a.D, true); ok {
 				recv(w)
 				tr.Applied[i], tr.Faulty = true, true
 			}
@@ -457,6 +540,9 @@ func RunLayer(p Params, acts []Act) LayerTrace {
 				tr.Applied[i], tr.Faulty = true, true
 			}
 		}
+		if stuck {
+			break
+		}
 		settle()
 	}
 	a, b := qlen()
@@ -472,6 +558,11 @@ func RunLayer(p Params, acts []Act) LayerTrace {
 			tr.Ret = "hung"
 			mu.Unlock()
 		}
+	}
+	if stuck { // a Handle call never came back
+		mu.Lock()
+		tr.Ret = "hung"
+		mu.Unlock()
 	}
 	// housekeeping after the transfer timeout: nothing may be left
 	srv.CheckExpirations(time.Now().Add(time.Hour))
